@@ -271,7 +271,7 @@ def validate_traces(cases, wd, run, shards=6, tag="trace"):
 
 
 def replay_case(c, why, kind):
-    return {"kind": kind, "why": why, "src": c["src"], "grammar": c["G"], "origin": c["origin"],
+    return {"kind": kind, "why": why, "src": c["src"], "grammar": c["G"], "pres": c["pres"], "origin": c["origin"],
             "observed": summarize(c["resp"]["res"]), "judged_by": "spec/PipelineJudge.tla over spec/LR1.tla"}
 
 
@@ -353,6 +353,8 @@ def design_level(prop, tier, run):
     """The operational specifications, model-checked: merge-on-the-fly == LR(1) merged by core under every
     schedule (C17); ordered scan + unordered fill ends in a conflict iff not LALR(1), with a genuine witness, and in
     the LALR(1) table whatever the fill order (C04, C11)."""
+    if os.environ.get("VERIF_SKIP_MC"):   # developer switch for mutation experiments; never set by registered commands
+        return
     u = "U1" if tier == "quick" else "U2"
     if prop == "C17":
         models = [("MC_Builder", "MC_Builder", u), ("MC_Builder", "MC_BuilderFifo", u)]
@@ -367,3 +369,36 @@ def design_level(prop, tier, run):
                           "actions_never_taken": never}
         if never:
             raise ToolError("%s: action(s) never taken in the bounded model: %s" % (cfg, never))
+
+
+def replay(prop, path):
+    """Re-runs the single case of a replay file against the current /repo and has TLC judge it again."""
+    case = json.load(open(path))
+    pres = case["pres"]
+    pres["rules"] = {int(k): v for k, v in pres["rules"].items()}
+    c = {"G": case["grammar"], "pres": pres, "src": case["src"], "origin": case.get("origin", "replay")}
+    run = common.Run(prop, "quick", case.get("seed", 1))
+    wd = common.workdir("pipeline_replay_%s" % prop)
+    run_real([c])
+    rec, other = obs_record(0, c)
+    c["rec"], c["other"] = rec, other
+    run.evaluations = 1
+    if rec is None:
+        if prop == "C04":
+            run.violation(replay_case(c, "C04: generate neither emitted a parser nor reported a table conflict: %s" % json.dumps(other)[:300], "no-verdict"))
+    else:
+        verdicts, results = judge([rec], wd, shards=1)
+        for r in results:
+            run.add_tlc(r)
+        j = verdicts[0]
+        run.traces = 1
+        log("judge: %s" % json.dumps(j))
+        if not j["ok"] and j["why"].startswith(prop + ":"):
+            run.violation(replay_case(c, j["why"], "judge"))
+        if prop == "C11" and rec["verdict"] == "conflict" and c.get("attached_file_mismatch"):
+            run.violation(replay_case(c, "C11: attached grammar is not the validated input grammar", "attached-file"))
+    run.sample({"src": c["src"]})
+    run.nontrivial.update(["replay", "case"])
+    run.rule = "single replayed case"
+    # a replay does not overwrite the evidence of the real run
+    return 1 if run.violations and not print("VIOLATION property=%s replay=%s" % (prop, path)) else 0
